@@ -1020,7 +1020,7 @@ def _labels_of(t):
     return out
 
 C14_EXT = ['\\forall {x} in %d%: AX {x}', '\\exists {x} in %d%: @{x}: v0', '\\bind {x} in %d%: {x}', 'v0 & (\\forall {x} in %d%: {x})', '(!{a}: AX {a}) & (V{b}: {b}) & (3{c}: @{c}: v0)', '!{a}: (3{b}: {b}) | (3{c}: !{e}: {c} & {e})', '%w%', '!{x} in %d%: AX {x}', '3{x} in %d%: @{x}: (%w% & EF {x})', 'V{x}: !{y}: 3{z}: ({x} | {y} | {z} | %w%)', 'v0 & ~v1', '!{x}: !{y} in %d%: ({x} & {y})', 'EX %d%', '!{x} in %w%: %d%', '3{x} in %d%: (EX %w% & AX EX %w%)', '!{x} in %d%: ((AX %w%) | (AX %w%))']
-C14_TEMPLATES = ['(!{a}: AX {a}) | (3{b}: @{b}: EF {b})', '!{x}: AG EF {x}', '3{x} in %d%: @{x}: (v0 & AX {x})', '(v0 EU ~v1) <=> %w%', 'V{a}: !{b}: ({a} | AF {b})', '\\bind {x}: EX (%w% ^ {x})', 'AG (v0 => EF true)']
+C14_TEMPLATES = ['(!{a}: AX {a}) | (3{b}: @{b}: EF {b})', '(V{a}: AX {a}) & (3{b}: EF {b})', '!{x}: AG EF {x}', '3{x} in %d%: @{x}: (v0 & AX {x})', '(v0 EU ~v1) <=> %w%', 'V{a}: !{b}: ({a} | AF {b})', '\\bind {x}: EX (%w% ^ {x})', 'AG (v0 => EF true)']
 
 def sc_c14(ctx, p):
     k = p['k']
